@@ -205,13 +205,30 @@ def run_case(case, rng):
 
     astar = case.call("AStarSearch()", lambda: AStarSearch(heuristic_value=lambda s: hval[s], seed=seed,
                                                           randomize_action_order=rao, tie_breaking_strategy=tb))
+    warm = None
+    if rng.random() < 0.25:
+        # the same planner objects first plan on an unrelated problem over OVERLAPPING labels; nothing may leak
+        n3, a3, e3, g3, s3 = gen_graph(rng, 6)
+        warm = QuickMDP(next_state=lambda s, a: e3[(s, a)][0], initial_state=s3, reward=lambda s, a, ns: -e3[(s, a)][1],
+                        actions=lambda s: tuple(a for a in a3 if (s, a) in e3), is_absorbing=lambda s: s in g3)
+        case.count("planners_reused")
     if astar is not case.FAIL:
+        if warm is not None:
+            astar_w = case.call("AStarSearch()", lambda: AStarSearch(heuristic_value=lambda s: 0, seed=seed,
+                                                                    randomize_action_order=rao, tie_breaking_strategy=tb))
+            if astar_w is not case.FAIL:
+                astar_w.heuristic_value = lambda s: 0
+                case.call("AStarSearch.plan_on(other problem first)", astar_w.plan_on, warm, facts=facts)
+                astar_w.heuristic_value = lambda s: hval[s]
+                astar = astar_w
         res = case.call("AStarSearch.plan_on", astar.plan_on, prob, facts=facts)
         case.count("astar_calls")
         if res is not case.FAIL:
             validate("astar", res, True, False)
     bfs_seed = seed if rao else rng.choice([None, 3])
     bfs = BreadthFirstSearch(seed=bfs_seed, randomize_action_order=rao)
+    if warm is not None:
+        case.call("BreadthFirstSearch.plan_on(other problem first)", bfs.plan_on, warm, facts=facts)
     res = case.call("BreadthFirstSearch.plan_on", bfs.plan_on, prob, facts=facts)
     case.count("bfs_calls")
     if res is not case.FAIL:
